@@ -705,6 +705,9 @@ def verify_directory_hash_subcommand(
         generation = -1
         # inspect the history and use all documented algorithms as the basis of verification
         for hash_list in existing_history.hash_lists:
+            # generations created without directory hashes have no root hash
+            if hash_list.process_info.root_media_hash is None:
+                continue
             if hash_list.generation_number > generation:
                 # add each hash entry's format to the list of formats
                 if len(hash_list.process_info.root_media_hash.hash_entries) > 0:
@@ -849,6 +852,9 @@ def verify_directory_hash_subcommand(
         # compare root hashes, works differently
         if folder_path == root_path:
             for hash_list in existing_history.hash_lists:
+                # generations created without directory hashes have no root hash
+                if hash_list.process_info.root_media_hash is None:
+                    continue
                 root_hash_entries = hash_list.process_info.root_media_hash.hash_entries
                 if len(root_hash_entries) > 0:
                     for root_hash_entry in root_hash_entries:
